@@ -309,6 +309,15 @@ pub fn all_faults(reg: &PortableRegistry) -> Vec<Fault> {
         }
         vals.insert(0);
         vals.insert(u32::MAX);
+        // the position of a structurally identical entry (twin prelude/builtin entries exist in
+        // real registries: Option<String> next to Option<&str>, Vec<Box<X>> next to Vec<X>)
+        if let Some(j) = reg
+            .types
+            .iter()
+            .position(|t| t.id != i && t.ty == reg.types[i as usize].ty)
+        {
+            vals.insert(j as u32);
+        }
         vals.remove(&i);
         for given in vals {
             out.push(Fault::IdMismatch { entry: i, given });
